@@ -222,6 +222,46 @@ func unicodeChecks() []result {
 	return []result{r}
 }
 
+// trigChecks: the assumed ranges of math.Atan2 / math.Cos / math.Sin used by shapeOval.GetDimensionsToFit (C21), on a
+// grid of first-quadrant points (including both axes and extreme ratios) and of angles in [0, float32(pi/2)].
+func trigChecks() []result {
+	r := result{Name: "math.Atan2 in [0, 1.5707964] on the closed first quadrant; math.Cos in [-1e-7, 1] and math.Sin in [0, 1] on [0, float32(pi/2)]", Bound: "grid: 61x61 points (0 and 10^-10..10^10 per axis), 200001 angles plus the float32-rounded angle of every point"}
+	const top = 1.5707964
+	coords := []float64{0}
+	for e := -10.0; e <= 10.0; e += 1.0 / 3 {
+		coords = append(coords, math.Pow(10, e))
+	}
+	angle := func(th float64, what string) {
+		r.Cases++
+		c, s := math.Cos(th), math.Sin(th)
+		if !(-0.0000001 <= c && c <= 1) || !(0 <= s && s <= 1) {
+			r.Failed++
+			r.First = fmt.Sprintf("%s: cos(%v)=%v sin=%v", what, th, c, s)
+		}
+	}
+	for _, y := range coords {
+		for _, x := range coords {
+			th := math.Atan2(y, x)
+			r.Cases++
+			if !(0 <= th && th <= top) {
+				r.Failed++
+				r.First = fmt.Sprintf("Atan2(%v,%v)=%v", y, x, th)
+			}
+			th32 := float64(float32(th))
+			if !(0 <= th32 && th32 <= top) {
+				r.Failed++
+				r.First = fmt.Sprintf("float32(Atan2(%v,%v))=%v", y, x, th32)
+			}
+			angle(th32, "rounded angle")
+		}
+	}
+	last := float64(float32(math.Pi / 2))
+	for i := 0; i <= 200000; i++ {
+		angle(last*float64(i)/200000, "grid angle")
+	}
+	return []result{r}
+}
+
 func main() {
 	seed := int64(1)
 	if s := os.Getenv("VERIF_SEED"); s != "" {
@@ -250,6 +290,9 @@ func main() {
 	}
 	if which == "all" || which == "C01" || which == "C32" {
 		all = append(all, unicodeChecks()...)
+	}
+	if which == "all" || which == "C21" {
+		all = append(all, trigChecks()...)
 	}
 	bad := 0
 	for _, r := range all {
